@@ -33,6 +33,26 @@ FIRST = {  # what happened on the FIRST run against each change, before any stre
     "C13_1": "missed (in every family enum the largest value also had the alphabetically last name) -> enums whose maximum is neither last declared nor last by name",
     "C13_3": "caught (the patch had to be re-based by hand: the fix for signed JSON numbers touched the same line)",
     "C13_r2_2": "missed (no field id above 255 in the family) -> ids 1 / 256 / 65537, whose order changes when narrowed to 8 or 16 bits",
+    "C01_r3_b": "missed (the priming only made successful calls) -> aborted encode/decode calls in the history priming",
+    "C02_r3_b": "NOT CAUGHT, by decision: needs the parsed FcpV2 tree to be edited in place (fcp.structs[i] = other) - outside the property's domain (schemas as the front end produced them); judging that would flag correct caches",
+    "C03_r3_b": "NOT CAUGHT: only the generated rpc envelope structs (<Svc>Input/Output, ServiceId) are affected - rpc/service headers are outside the C03 claim",
+    "C05_r3_a": "missed (own DBC reader masked bit 31 of BO_ ids) -> extended-frame flag read and compared",
+    "C05_r3_b": "inconclusive (the replay reused one encoder for all bindings and so reproduced the memo bug on both sides) -> fresh encoder per binding in the replay",
+    "C08_r3_a": "missed (the token stand-in answered str() with a Python repr, so an index keyed by token text never matched) -> stand-ins faithful to lark tokens",
+    "C08_r3_b": "missed (no two module files with the same base name and equal declaration positions) -> template added",
+    "C09_r3_a": "missed (bindings carried only an id) -> bus/device extension fields with symbolic values",
+    "C09_r3_b": "missed (names are atoms: no earlier same-named schema) -> a decoy tree with the same atoms is verified first on every path",
+    "C10_r3_b": "missed (histories only had accepted generations) -> history 'after a rejected generation'",
+    "C12_r3_a": "missed (extension-field numbers in the templates had few digits) -> 2^64-1, 2^53+1, 17-digit floats",
+    "C12_r3_b": "missed (reference record read the live field dicts; no layout before reflection) -> declared-fields snapshot, same-object history",
+    "C13_r3_a": "missed (all reflection strings ASCII) -> non-ASCII extension field; a loader that leaves its buffer is decided natively",
+    "C13_r3_b": "missed (one load per schema object) -> the reflection is loaded twice",
+    "C14_r3_a": "missed (no `bitstart` signal option anywhere) -> option added to C04's skeleton and C14's concrete cases",
+    "C14_r3_b": "caught only after the warm-up generation got the decoy schema (same enum name, narrower)",
+    "C15_r3_b": "caught by C13 (field ids >= 256), not by C15: only the run-time C++ schema is affected",
+    "C18_r3_a": "missed (all binding names were 1 character) -> names longer than the bus tag; patch re-based after fix 8b8cbc4",
+    "C18_r3_b": "missed (one Decode per Can object) -> a foreign frame with the same id is decoded first on the same object",
+    "C20_r3_a": "missed (no module file next to a same-named directory) -> tree plans",
     "C05_2": "would have been missed (no plain signal named like an earlier binding's multiplexer) -> schema added before the run",
 }
 
